@@ -9,7 +9,12 @@ pub(super) enum CompatibleDocument<'a> {
 impl<'a> CompatibleDocument<'a> {
     pub(super) fn from_bytes(bytes: &'a [u8]) -> Self {
         if is_ring(bytes) {
-            Self::CleanedFromRing(fix_ring_doc(bytes.to_vec()))
+            // A document that merely contains the sentinel but does not have the shape of ring's
+            // template is handed to the parser as it is, which rejects it.
+            match fix_ring_doc(bytes.to_vec()) {
+                Some(doc) => Self::CleanedFromRing(doc),
+                None => Self::WellFormed(bytes),
+            }
         } else {
             Self::WellFormed(bytes)
         }
@@ -31,16 +36,17 @@ const RING_TEMPLATE_CONTEXT_SPECIFIC: &[u8] = &[0xA1, 0x23, 0x03, 0x21];
 const WELL_FORMED_CONTEXT_ONE_PREFIX: &[u8] = &[0x81, 0x21];
 
 // If present, removes a malfunctioning pubkey suffix and adjusts the length at the start.
-fn fix_ring_doc(mut doc: Vec<u8>) -> Vec<u8> {
-    assert!(!doc.is_empty());
+fn fix_ring_doc(mut doc: Vec<u8>) -> Option<Vec<u8>> {
     // Check if first tag is ASN.1 SEQUENCE
-    assert_eq!(doc[0], 0x30);
-    // Second byte asserts the length for the rest of the document
-    assert_eq!(doc[1] as usize, doc.len() - 2);
+    if doc.first() != Some(&0x30) {
+        return None;
+    }
+    // Second byte gives the length for the rest of the document
+    if doc.get(1).map(|len| *len as usize) != Some(doc.len() - 2) {
+        return None;
+    }
 
-    let idx = doc
-        .find(RING_TEMPLATE_CONTEXT_SPECIFIC)
-        .expect("Expected to find ring template in doc, but found none.");
+    let idx = doc.find(RING_TEMPLATE_CONTEXT_SPECIFIC)?;
 
     // Snip off the malformed bit.
     let suffix = doc.split_off(idx);
@@ -53,7 +59,7 @@ fn fix_ring_doc(mut doc: Vec<u8>) -> Vec<u8> {
 
     doc[1] = doc.len() as u8 - 2;
 
-    doc
+    Some(doc)
 }
 
 fn is_ring(bytes: &[u8]) -> bool {
